@@ -35,16 +35,20 @@ func (p *Sink) Run() {
 	if p.in().Ready() {
 		go func() {
 			for ip := range p.in().Chan {
+				verifPoint("port.recv", verifPortName(p, "sink_in"), ip.Path())
 				Debug.Printf("Got file in sink: %s\n", ip.Path())
 			}
+			verifPoint("port.recv_closed", verifPortName(p, "sink_in"))
 			merged <- 1
 		}()
 	}
 	if p.paramIn().Ready() {
 		go func() {
 			for param := range p.paramIn().Chan {
+				verifPoint("pport.recv", verifPortName(p, "param_sink_in"), param)
 				Debug.Printf("Got param in sink: %s\n", param)
 			}
+			verifPoint("pport.recv_closed", verifPortName(p, "param_sink_in"))
 			merged <- 1
 		}()
 	}
